@@ -92,6 +92,14 @@ def query_entities(chk, facts):
             for cn, s in clos:
                 cs = _closure_calls(facts, cn)
                 types = {c.split("::")[-1] for c in cs if c.split("::")[-1].endswith("_type") and "PartialRequest" in c}
+                # ... or the type was read before the closure and is captured
+                for o in s[2][2]:
+                    if o[0] in ("c", "m") and len(o[1]) == 1:
+                        r = resolve(facts, f, o[1][0])
+                        if r[0] == "local" and r[1] == f.name:
+                            for kind_, b_, x in panics._def_sites(f).get(r[2], []):
+                                if kind_ == "call" and callee(x).split("::")[-1].endswith("_type") and "PartialRequest" in callee(x):
+                                    types.add(callee(x).split("::")[-1])
                 if any(c.endswith("Authorizer::is_authorized") for c in cs):
                     kinds.append(("auth", cn, s))
                 elif types:
